@@ -597,6 +597,29 @@ func residueElements() []*el {
 			}
 		}
 	}
+	// the same for values that are not small (T13: no method may depend on WHICH representation v + k*p it is handed):
+	// sqrt(-1) (a square, its own square root structure matters to SqrtRatioI), d (a non-square) and a dense pattern
+	for _, v := range []*big.Int{ref.SqrtM1, ref.D, new(big.Int).Mod(new(big.Int).SetBytes(bytesOf(0x5a, 32)), P)} {
+		vl := make([]uint64, nl)
+		t := new(big.Int).Set(v)
+		for i := 0; i < nl; i++ {
+			vl[i] = new(big.Int).And(t, new(big.Int).SetUint64(1<<radix[i]-1)).Uint64()
+			t.Rsh(t, radix[i])
+		}
+		for k := uint64(0); k <= maxK; k++ {
+			base := make([]uint64, nl)
+			for i := 0; i < nl; i++ {
+				base[i] = vl[i] + k*pl[i]
+			}
+			es = append(es, mkEl(base))
+			if base[1] > 0 {
+				l := append([]uint64{}, base...)
+				l[1]--
+				l[0] += 1 << radix[0]
+				es = append(es, mkEl(l))
+			}
+		}
+	}
 	// keep only elements inside the documented input headroom
 	var in []*el
 	for _, e := range es {
@@ -619,6 +642,14 @@ func residueElements() []*el {
 	return dedup(in)
 }
 
+func bytesOf(b byte, n int) []byte {
+	out := make([]byte, n)
+	for i := range out {
+		out[i] = b
+	}
+	return out
+}
+
 func residueClasses(c *mc.Ctx) {
 	in := residueElements()
 	c.Rep.Extra["residue_class_elements"] = len(in)
@@ -639,6 +670,42 @@ func residueClasses(c *mc.Ctx) {
 		}
 		binaryOps(chk{w, s}, a, b, i)
 	})
+	// BatchInvert with each representation at each index of [g, e, h] (T13/T5): e is inverted / left alone as its VALUE
+	// demands, and the neighbours are inverted correctly whatever e's limbs look like
+	var g, h *el
+	for _, e := range in {
+		if e.v.Cmp(ref.SqrtM1) == 0 && g == nil {
+			g = e
+		}
+		if e.v.Cmp(ref.D) == 0 && h == nil {
+			h = e
+		}
+	}
+	if g != nil && h != nil {
+		gi, hi := ref.FInv(g.v), ref.FInv(h.v)
+		c.Par("residue-batchinvert", len(in)*3, func(w *mc.W, i int) {
+			s := pool.Get().(*scratch)
+			defer pool.Put(s)
+			e, pos := in[i/3], i%3
+			w.Eval("batchinvert/representation", e.unred)
+			fes := []field.Element{g.fe, h.fe, h.fe}
+			want := []*big.Int{gi, hi, hi}
+			if pos != 0 {
+				fes[0], want[0] = g.fe, gi
+			}
+			fes[pos] = e.fe
+			want[pos] = zero
+			if e.v.Sign() != 0 {
+				want[pos] = new(big.Int).ModInverse(e.v, P)
+			}
+			field.BatchInvert([]*field.Element{&fes[0], &fes[1], &fes[2]})
+			for k := range fes {
+				chk{w, s}.val(fmt.Sprintf("BatchInvert/representation(index %d, element at %d)", k, pos), &fes[k], want[k], bNone, func() interface{} {
+					return map[string]string{"e_limbs": e.hex(), "position": fmt.Sprint(pos)}
+				})
+			}
+		})
+	}
 	// library-produced unreduced forms
 	full := fullCorners()
 	// x is taken from the weakly reduced corners only ({0, 1, 2^r-1, 2^r}), so that x + Neg(x) (limbs < 2^(r+1)+small)
@@ -1083,6 +1150,32 @@ func heavyUnary(ck chk, a, b *el) {
 	x := a.fe
 	x.Invert(&x)
 	ck.sameAs("Invert/alias(fe,fe)", &x, &inv, cas)
+
+	// every method that returns *Element returns its receiver (callers chain on it)
+	{
+		var r field.Element
+		names := []string{"Set", "Square", "Square2", "Mul", "Add", "Sub", "Neg", "Mul121666", "Pow2k", "Invert", "Zero", "One", "MinusOne"}
+		rets := []*field.Element{r.Set(&a.fe), r.Square(&a.fe), r.Square2(&a.fe), r.Mul(&a.fe, &b.fe), r.Add(&a.fe, &b.fe), r.Sub(&a.fe, &b.fe),
+			r.Neg(&a.fe), r.Mul121666(&a.fe), r.Pow2k(&a.fe, 1), r.Invert(&a.fe), r.Zero(), r.One(), r.MinusOne()}
+		for k, p := range rets {
+			if p != &r {
+				w.Fail(names[k]+"/returns-receiver", names[k]+" does not return its receiver", cas())
+			}
+		}
+		if p, _ := r.SqrtRatioI(&a.fe, &b.fe); p != &r {
+			w.Fail("SqrtRatioI/returns-receiver", "SqrtRatioI does not return its receiver", cas())
+		}
+	}
+	// InvSqrt works in place by design: it must agree with SqrtRatioI(1, a) computed into a distinct receiver
+	var is0 field.Element
+	_, fi0 := is0.SqrtRatioI(&field.One, &a.fe)
+	x = a.fe
+	ret, fi1 := x.InvSqrt()
+	ck.sameAs("InvSqrt", &x, &is0, cas)
+	if fi0 != fi1 || ret != &x {
+		w.Fail("InvSqrt/flag", fmt.Sprintf("InvSqrt flag %d, SqrtRatioI(1, a) flag %d (returned receiver: %v)", fi1, fi0, ret == &x), cas())
+	}
+	sqrtCase(ck, &field.One, &a.fe, one, a.v, cas)
 
 	// SqrtRatioI with the given representations on both sides, and with the receiver aliasing u, v, or both
 	cas2 := func() interface{} { return map[string]string{"u_limbs": a.hex(), "v_limbs": b.hex()} }
